@@ -45,6 +45,9 @@ const preludeSMT = `
 (define-fun endsS ((a (Array Int Int)) (n Int)) Bool (and (>= n 3) (isS a (- n 3))))
 (define-fun endsE ((a (Array Int Int)) (n Int)) Bool (and (>= n 3) (isE a (- n 3))))
 (define-fun frag ((a (Array Int Int)) (n Int)) Bool (and (WF a n false) (LS a n)))
+; a trailing start delimiter is preceded by clean text (so that removing it exposes no partial marker)
+(define-fun CS ((a (Array Int Int)) (n Int)) Bool (=> (endsS a n) (clean a (- n 3))))
+(define-fun sameView ((a (Array Int Int)) (b (Array Int Int))) Bool (= a b))
 ; dep is constant on [lo, hi]
 (define-fun depConst ((a (Array Int Int)) (lo Int) (hi Int)) Bool
   (forall ((j Int)) (=> (and (<= lo j) (<= j hi)) (= (dep a j) (dep a lo)))))
@@ -68,6 +71,8 @@ func init() {
 	specFns["endsS"] = specFn{"endsS", []string{seq, "int"}, SBool}
 	specFns["endsE"] = specFn{"endsE", []string{seq, "int"}, SBool}
 	specFns["frag"] = specFn{"frag", []string{seq, "int"}, SBool}
+	specFns["CS"] = specFn{"CS", []string{seq, "int"}, SBool}
+	specFns["sameView"] = specFn{"sameView", []string{seq, seq}, SBool}
 
 	// every array update that preserves a prefix instantiates DepCong (proved in prelude_lemmas.go)
 	prefixFns = append(prefixFns, func(e *Env, oldA, newA, bound, cond *Term) {
@@ -88,7 +93,7 @@ func init() {
 var preludeDefined = map[string]bool{
 	"nilU": true, "emptyArr": true, "godiv": true, "gorem": true, "bitand": true, "bitor": true, "bitnot": true, "streq": true,
 	"isS": true, "isE": true, "isM": true, "dep": true, "depStep": true, "clean": true, "WF": true, "LS": true,
-	"WFP": true, "depConst": true, "shift": true, "noMarker": true, "noNL": true, "sameBytes": true, "endsS": true, "endsE": true, "frag": true,
+	"WFP": true, "depConst": true, "shift": true, "CS": true, "sameView": true, "noMarker": true, "noNL": true, "sameBytes": true, "endsS": true, "endsE": true, "frag": true,
 }
 
 // axiomsFor produces on-demand declarations and ground axiom instances for a query.
@@ -171,11 +176,31 @@ func (w *World) axiomsFor(terms []*Term) []string {
 		}
 	}
 	out = dedupe(out)
+	// every ground sameBytes(a2, a, n) instantiates LemmaDepCong
+	sb := map[string]*Term{}
+	for _, t := range terms {
+		t.GroundApps(map[string]bool{"sameBytes": true}, sb)
+	}
+	for _, k := range sortedKeys(sb) {
+		g := sb[k]
+		out = append(out, fmt.Sprintf("(assert (=> %s (L_DepCong_post %s %s %s)))", k, g.Args[0].String(), g.Args[1].String(), g.Args[2].String()))
+	}
 	// dep unfolding, fuel 3
 	seen := map[string]bool{}
 	frontier := map[string]*Term{}
 	for _, t := range terms {
 		t.GroundApps(map[string]bool{"dep": true}, frontier)
+	}
+	// predicates whose definition mentions dep at ground points seed the unfolding too
+	seeds := map[string]*Term{}
+	for _, t := range terms {
+		t.GroundApps(depSeedNames, seeds)
+	}
+	for _, k := range sortedKeys(seeds) {
+		g := seeds[k]
+		for _, d := range depSeeds[g.Name](g.Args) {
+			frontier[d.String()] = d
+		}
 	}
 	for round := 0; round < 3; round++ {
 		next := map[string]*Term{}
@@ -210,3 +235,30 @@ func dedupe(in []string) []string {
 
 
 func fullPrelude() string { return preludeSMT + lemmaPrelude() }
+
+
+func depAt(a, t *Term) *Term { return App("dep", SInt, a, t) }
+
+// depSeeds: for a ground application of a prelude predicate, the ground dep terms its definition mentions.
+var depSeeds = map[string]func(a []*Term) []*Term{
+	"WF":                 func(a []*Term) []*Term { return []*Term{depAt(a[0], a[1])} },
+	"WFP":                func(a []*Term) []*Term { return []*Term{depAt(a[0], a[1])} },
+	"frag":               func(a []*Term) []*Term { return []*Term{depAt(a[0], a[1])} },
+	"depConst":           func(a []*Term) []*Term { return []*Term{depAt(a[0], a[1]), depAt(a[0], a[2])} },
+	"L_AppendPlain_pre":  func(a []*Term) []*Term { return []*Term{depAt(a[0], a[2])} },
+	"L_AppendPlain_post": func(a []*Term) []*Term { return []*Term{depAt(a[0], a[2]), depAt(a[1], a[2]), depAt(a[1], a[3])} },
+	"L_AppendPlainLS_pre": func(a []*Term) []*Term { return []*Term{depAt(a[0], a[2])} },
+	"L_AppendDelim_pre":  func(a []*Term) []*Term { return []*Term{depAt(a[0], a[2])} },
+	"L_AppendDelim_post": func(a []*Term) []*Term { return []*Term{depAt(a[1], Add(a[2], IntLit(3)))} },
+	"L_CopyWF_post":      func(a []*Term) []*Term { return []*Term{depAt(a[0], a[2]), depAt(a[1], a[2])} },
+	"L_ConcatWF_pre":     func(a []*Term) []*Term { return []*Term{depAt(a[0], a[3]), depAt(a[2], a[4])} },
+	"L_ConcatWF_post":    func(a []*Term) []*Term { return []*Term{depAt(a[1], Add(a[3], a[4]))} },
+}
+
+var depSeedNames = func() map[string]bool {
+	m := map[string]bool{}
+	for k := range depSeeds {
+		m[k] = true
+	}
+	return m
+}()
